@@ -319,6 +319,13 @@ class MailboxData(MailboxDataInterface[Message]):
                     rec.key, dest_maildir, dest_subdir)
             except (KeyError, FileNotFoundError):
                 return None
+        async with UidList.with_write(self._path) as uidl:
+            # the record must not outlive the message here: its key travels
+            # with the file and would revive this UID if the file came back
+            try:
+                uidl.remove(uid)
+            except KeyError:
+                pass
         async with UidList.with_write(destination._path) as uidl:
             new_rec = Record(uidl.next_uid, rec.fields, new_filename)
             uidl.next_uid += 1
